@@ -568,6 +568,25 @@ class LSMTree(Entity):
         if self._memtable.size == 0:
             return
 
+        if self._immutable_memtables:
+            # A flush started through put()/delete() is still writing an older
+            # memtable. Appending to L0 now would put this newer SSTable below
+            # that older data (immutable memtables are read before L0, and the
+            # older SSTable would be appended after this one). Freeze the
+            # memtable instead; the running flush installs both in order.
+            old_memtable = self._memtable
+            self._immutable_memtables.append(old_memtable)
+            self._memtable = Memtable(
+                f"{self.name}_memtable",
+                size_threshold=old_memtable._size_threshold,
+            )
+            if self._clock is not None:
+                self._memtable.set_clock(self._clock)
+            sstable = old_memtable.flush(clear=False)
+            self._sstable_bytes_written += sstable.size_bytes
+            self._written_sstables[old_memtable] = sstable
+            return
+
         sstable = self._memtable.flush()
         self._sstable_bytes_written += sstable.size_bytes
         self._levels[0].append(sstable)
